@@ -1,3 +1,5 @@
+//go:build !verif
+
 /*
    Copyright 2018-2019 Banco Bilbao Vizcaya Argentaria, S.A.
 
